@@ -574,13 +574,26 @@ def conc_bulgarian(r):
         perf = _text_of(cx['form'], m)
         k = centi_of_text(perf)
     got, want = bg_check(key, perf, k)
+    if got == want:
+        # the table look-up is uninterpreted for the solver: its model may sit where two neighbouring rows carry the same points.
+        # Search the unit's own finite grid of this text form on the real code for a mark that does show the difference.
+        kk = ('bg', key, cx['form'])
+        if kk not in _SWEEP:
+            _SWEEP[kk] = _sweep_bg(cx, key, table)
+        if _SWEEP[kk][1]:
+            return _SWEEP[kk]
     return dict(call='bulgarian_score(%r, %r)' % (key, perf), observed=got, required=want, input=['bulgarian', key, perf, k]), got != want
 
 
 def _sweep_bg(cx, key, table):
     if True:
         for k in range(0, 2 * max(table['min'], table['max']) + 1000):
-            cands = [k / 100] if cx['form'] == 'float' else [('%d.%02d' % (k // 100, k % 100))]
+            if cx['form'] == 'float':
+                cands = [k / 100]
+            elif cx['form'] == 'd:dd.dd':
+                cands = ['%d:%02d.%02d' % (mm, (k - 6000 * mm) // 100, k % 100) for mm in range(0, 10) if 0 <= k - 6000 * mm < 10000]
+            else:
+                cands = [('%d.%02d' % (k // 100, k % 100))]
             for perf in cands:
                 got, want = bg_check(key, perf, k)
                 if got != want:
@@ -705,6 +718,13 @@ def replay(rep):
     return 1 if got != want else 0
 
 
+def _real_or_exc(f, *a):
+    try:
+        return f(*a)
+    except Exception as e:
+        return 'raises %s' % type(e).__name__
+
+
 def _cc_chunk(args):
     """encoder cross-check with CONSTANT proxies: the instrumented functions run on a float proxy that denotes one concrete
     mark (exact value k/100, error = half an ulp) must (i) pass their robustness side conditions and (ii) return the value the
@@ -743,6 +763,7 @@ def _cc_chunk(args):
     from pyvc.core import OutOfSubset, Abort, PathEnd
     for _ in range(n):
         which = rnd.choice(['ty', 'ty', 'qk', 'bg'])
+        what = want = None
         c = Ctx()
         Ctx.current = c
         try:
@@ -764,26 +785,24 @@ def _cc_chunk(args):
                     if spec is not None and real != spec:
                         errs.append(('ground', 'tyrving_score(%r, %r, %r, %r) = %r, the table formula gives %r' % (g, age, ev, mk_, real, spec),
                                      ['tyrving', g, age, ev, mk_, False]))
-                got = value_of(c, fty(g, age, ev, const_mark(k)))
-                want = ty.tyrving_score(g, age, ev, k / 100)
                 what = ('tyrving_score', g, age, ev, k / 100)
+                want = _real_or_exc(ty.tyrving_score, g, age, ev, k / 100)
+                got = value_of(c, fty(g, age, ev, const_mark(k)))
             elif which == 'qk':
                 ct, ev = rnd.choice(qrows)
                 row = qk._qkidsTables[ct][ev]
                 k = rnd.randrange(0, int(100 * (max(row[1], row[2]) * 2 + 20)))
-                got = value_of(c, fqk(ct, ev, const_mark(k)))
-                want = qk.qkids_score(ct, ev, k / 100)
                 what = ('qkids_score', ct, ev, k / 100)
+                want = _real_or_exc(qk.qkids_score, ct, ev, k / 100)
+                got = value_of(c, fqk(ct, ev, const_mark(k)))
             else:
                 key = rnd.choice(bkeys)
                 m = re.match(r'^(U\d+)([MFX])(.*)$', key)
                 t = bg.scores[key]
                 k = rnd.randrange(max(0, min(t['min'], t['max']) - 100), max(t['min'], t['max']) + 100)
-                got = value_of(c, fbg(m.group(1), m.group(2), m.group(3), const_mark(k)))
-                if isinstance(got, int) and not (0 <= got <= 150) and str(got) != str(got):
-                    pass
-                want = bg.score(m.group(1), m.group(2), m.group(3), k / 100)
                 what = ('bulgarian_score', key, k / 100)
+                want = _real_or_exc(bg.score, m.group(1), m.group(2), m.group(3), k / 100)
+                got = value_of(c, fbg(m.group(1), m.group(2), m.group(3), const_mark(k)))
                 if isinstance(got, int) and got != want:
                     # a table look-up returns the uninterpreted value: resolve it through the real table
                     got = want if (min(t['min'], t['max']) <= k <= max(t['min'], t['max'])) else got
@@ -796,7 +815,13 @@ def _cc_chunk(args):
         except (OutOfSubset, Abort, PathEnd):
             pass                # outside the encoding on this tree: nothing to cross-check
         except Exception as e:
-            errs.append('proxy run of %r raised %s: %s' % (which, type(e).__name__, str(e)[:80]))
+            # the real function raising the same exception on the same double is agreement (and, for a mark of the property's
+            # domain, a violation that the ground check above reports), not an encoder error
+            from pyvc.core import proxy_leak
+            if proxy_leak(e):
+                pass            # un-instrumented code met the proxy on this tree: nothing to cross-check
+            elif want != 'raises %s' % type(e).__name__:
+                errs.append('proxy run of %r raised %s: %s (CPython: %r)' % (what or which, type(e).__name__, str(e)[:80], want))
         finally:
             Ctx.current = None
         if len(errs) > 3:
